@@ -13,6 +13,8 @@ pub fn dispatch(op: &str, _req: &Value) -> Value {
 		"c15_keys" => c15_keys(_req),
 		"duration_sweep" => duration_sweep(_req),
 		"c11_persist" => c11_persist(_req),
+		"x509_inspect" => x509_inspect(_req),
+		"get_proof" => get_proof_op(_req),
 		"ca_start" => ca_start(_req),
 		_ => json!({"ok": false, "machinery_error": format!("unknown op {op}")}),
 	}
@@ -1140,4 +1142,68 @@ fn c11_persist(req: &Value) -> Value {
 	}
 	let _ = std::fs::remove_dir_all(&dir);
 	json!({"ok": true, "shapes": n, "truncations": truncations, "bad": bad, "samples": samples})
+}
+
+/// Inspect a DER certificate (C16): own DER walker for SAN / extensions, OpenSSL for the
+/// self-signature and the validity period.
+fn x509_inspect(req: &Value) -> Value {
+	let der = match req.get("der_b64").and_then(|v| v.as_str()).map(cu::b64u_dec) {
+		Some(Ok(d)) => d,
+		_ => return json!({"ok": false, "machinery_error": "der_b64 missing"}),
+	};
+	let info = match super::der::parse_cert(&der) {
+		Ok(i) => i,
+		Err(e) => return json!({"ok": true, "parse_error": e}),
+	};
+	let x = match openssl::x509::X509::from_der(&der) {
+		Ok(x) => x,
+		Err(e) => return json!({"ok": true, "parse_error": format!("{e}")}),
+	};
+	let selfsig = x.public_key().ok().map(|k| x.verify(&k).unwrap_or(false)).unwrap_or(false);
+	let now = openssl::asn1::Asn1Time::days_from_now(0).unwrap();
+	let valid_now = x.not_before() <= now && now <= x.not_after();
+	let mut sans = vec![];
+	let mut n_san_ext = 0;
+	let mut exts = vec![];
+	for e in info.exts.iter() {
+		exts.push(json!({"oid": e.oid, "critical": e.critical, "value_hex": cu::hexs(&e.value)}));
+		if e.oid == "2.5.29.17" {
+			n_san_ext += 1;
+			if let Ok(s) = super::der::parse_san(&e.value) {
+				for d in s.dns {
+					sans.push(format!("dns:{d}"));
+				}
+				for i in s.ip {
+					sans.push(format!("ip:{}", super::ca::ip_bytes_to_string(&i)));
+				}
+				for _ in 0..s.other {
+					sans.push("other".to_string());
+				}
+			}
+		}
+	}
+	json!({"ok": true, "selfsig_ok": selfsig, "issuer_eq_subject": info.issuer == info.subject, "valid_now": valid_now, "sans": sans, "n_san_ext": n_san_ext,
+		"exts": exts, "sig_alg_oid": info.sig_alg_oid, "not_before": info.not_before, "not_after": info.not_after,
+		"key_bits": x.public_key().ok().map(|k| k.bits()), "key_id": x.public_key().ok().map(|k| format!("{:?}", k.id()))})
+}
+
+/// The daemon's own rendering of a challenge proof (used to feed tacd in C16/C20).
+fn get_proof_op(req: &Value) -> Value {
+	use std::str::FromStr;
+	let ctype = req.get("type").and_then(|v| v.as_str()).unwrap_or("tls-alpn-01");
+	let token = req.get("token").and_then(|v| v.as_str()).unwrap_or("tok");
+	let kt: acme_common::crypto::KeyType = req.get("key_type").and_then(|v| v.as_str()).unwrap_or("ecdsa-p256").parse().unwrap();
+	let key = acme_common::crypto::gen_keypair(kt).unwrap();
+	let ch = crate::acme_proto::structs::Challenge::from_str(&json!({"type": ctype, "url": "http://x/", "token": token}).to_string());
+	let ch = match ch {
+		Ok(c) => c,
+		Err(e) => return json!({"ok": false, "machinery_error": e.message}),
+	};
+	match ch.get_proof(&key) {
+		Ok((p, raw)) => {
+			let thumb = cu::thumbprint(&key.jwk_public_key().unwrap()).unwrap();
+			json!({"ok": true, "proof": p, "raw_proof": raw, "thumb": thumb, "file_name": ch.get_file_name()})
+		}
+		Err(e) => json!({"ok": false, "machinery_error": e.message}),
+	}
 }
